@@ -148,6 +148,34 @@ def corner_inputs(names, count=160, seed=0):
     import random
     rng = random.Random(seed)
     out = []
+    # deterministic extreme corners first: one team at +20 beta, the rest at -20 beta (and the reverse, and
+    # alternating), with tiny / zero / mid sigmas - the largest mismatches the domain allows
+    for b in (25 / 6, 0.01):
+        for pattern in ('first-high', 'first-low', 'alternate', 'last-high'):
+            for sg in (1e-4, 0.5, 0.0):
+                e = {}
+                for n in names:
+                    if n.startswith('mu'):
+                        try:
+                            i = int(n.split('_')[1])
+                        except (IndexError, ValueError):
+                            i = 0
+                        nteams = 1 + max([int(x.split('_')[1]) for x in names if x.startswith('mu_') and x.split('_')[1].isdigit()] or [0])
+                        hi = {'first-high': i == 0, 'first-low': i != 0, 'alternate': i % 2 == 0, 'last-high': i == nteams - 1}[pattern]
+                        e[n] = 20 * b if hi else -20 * b
+                    elif n.startswith('sg'):
+                        e[n] = sg * b
+                    elif n == 'beta':
+                        e[n] = b
+                    elif n == 'kappa':
+                        e[n] = 1e-4
+                    elif n in ('tau', 't', 'T0', 't1'):
+                        e[n] = b / 50 if sg == 0.0 else 0.0
+                    elif n == 'k':
+                        e[n] = 2.0
+                    else:
+                        e[n] = 0.5 * b
+                out.append(e)
     for k in range(count):
         b = rng.choice([25 / 6, 25 / 6, 1.0, 0.01, 300.0])
         eq_mu = rng.random() < 0.4
